@@ -298,6 +298,7 @@ func processStateChecks(c *caseCtx) {
 func casesDeterminism(c *caseCtx) {
 	ctx := context.Background()
 	processStateChecks(c)
+	manyNewGamesChecks(c, "C18")
 	engines := []string{"morlock", "turochamp", "bernstein", "sargon"}
 	n := 0
 	viol := func(key, what string) {
